@@ -190,8 +190,19 @@ def gen_case(rng, depth, nops):
                     c["ops"].append(op); cur = vset(cur, p, sc); continue
                 if rt is None or not unambiguous(et, rt, sc):
                     form = "py"
+            omit = []
+            if form == "py" and et["k"] == "struct" and rng.random() < 0.4:
+                # plain data that names every field at the top but only SOME fields of a nested struct: what is not named stays
+                nest = [i for i, (_, ft) in enumerate(et["fields"]) if ft["k"] == "struct" and len(ft["fields"]) >= 2]
+                if nest:
+                    i = rng.choice(nest); nf = len(et["fields"][i][1]["fields"])
+                    drop = rng.sample(range(nf), rng.randint(1, nf - 1))
+                    new = copy.deepcopy(new)
+                    for j in drop:
+                        new["f"][i]["f"][j] = copy.deepcopy(old["f"][i]["f"][j]); omit.append([i, j])
             exp = retag(et, old, new)
             op = {"mode": "set", "path": [list(s) for s in p], "new": new, "via": via, "form": form, "expect": exp is not None}
+            if omit: op["omit"] = omit
             c["ops"].append(op)
             if exp is not None:
                 cur = vset(cur, p, exp)
@@ -224,7 +235,17 @@ def gen_case(rng, depth, nops):
             new = {"shape": sh, "items": [gen_like(rng, et["item"], old["items"][0]) for _ in range(n)]}
             if n == 0 and len(sh) > 1:
                 continue
-            c["ops"].append({"mode": "set", "path": [list(s) for s in p], "new": new, "via": via, "expect": False, "misuse": "wrong-length-or-shape"})
+            form = "py"
+            if et["item"]["k"] == "scalar" and rng.random() < 0.5:
+                # a numpy value of another shape that numpy itself would broadcast to the right one
+                form = "np"
+                alts = [[1] * len(old["shape"])] + ([list(old["shape"][1:])] if len(old["shape"]) > 1 else []) + ([[old["shape"][0]] + [1] * (len(old["shape"]) - 1)] if len(old["shape"]) > 1 else [])
+                alts = [a for a in alts if a != list(old["shape"]) and all(d > 0 for d in a)]
+                if alts:
+                    sh = rng.choice(alts); n = 1
+                    for d in sh: n *= d
+                    new = {"shape": sh, "items": [gen_like(rng, et["item"], old["items"][0]) for _ in range(n)]}
+            c["ops"].append({"mode": "set", "path": [list(s) for s in p], "new": new, "via": via, "form": form, "expect": False, "misuse": "wrong-length-or-shape" + ("/numpy-broadcastable" if form == "np" else "")})
         else:                 # misuse: index outside the shape of some array on the way
             apaths = [(q, qt) for q, qt in paths if q[-1][0] == "i"]
             if not apaths:
@@ -272,6 +293,15 @@ def systematic_cases(rng):
                 ops.append(other([n] + [1] * (nd - 1), 80, "np", "view"))
                 ops.append(other([dims[0] + 1] + dims[1:], 90, "py", "view"))
                 out.append({"type": t, "value": v, "prep": dict(prep, kind=rng.choice(["numpy", "bytearray"])), "ops": ops})
+    # two item types of the SAME class name and different size, as items of equally shaped N-D arrays with stored
+    # strides, one after the other in one process; the last item's leaves are assigned
+    for nfields in (4, 1):
+        it = {"k": "struct", "name": "SItemSameNameU", "fields": [["f%d" % j, {"k": "scalar", "name": "Float64"}] for j in range(nfields)]}
+        t = {"k": "array", "item": it, "shape": [None, None], "order": [0, 1]}
+        v = {"shape": [2, 3], "items": [{"f": [[(i + j) & 255] + [0] * 7 for j in range(nfields)]} for i in range(6)]}
+        ops = [{"mode": "set", "path": [["i", c], ["f", nfields - 1]], "new": [200 + c] + [0] * 7, "via": via, "form": "py", "expect": True} for c, via in ((5, "handle"), (3, "view"), (4, "handle"))]
+        ops.append({"mode": "set", "path": [["i", 5]], "new": {"f": [[9] + [0] * 7 for _ in range(nfields)]}, "via": "handle", "form": "py", "expect": True})
+        out.insert(0 if nfields == 4 else 1, {"type": t, "value": v, "prep": dict(prep), "ops": ops})      # (first: they must run in ONE process, in this order)
     # a nested struct with several variable-size parts is replaced, as a whole, by an object of its class of the SAME
     # total size whose parts are distributed differently (copied as it is), then leaves are assigned and read again
     S = {"k": "string"}; F64 = {"k": "scalar", "name": "Float64"}; I64 = {"k": "scalar", "name": "Int64"}
@@ -307,6 +337,18 @@ def systematic_cases(rng):
             cur = vset(cur, q, retag(qt, vget(cur, q), nv))
             newin = permute(tin, nocap(vget(cur, (("f", 1),))))
         out.append({"type": t, "value": v, "prep": dict(prep), "ops": ops})
+        # the same nested struct is assigned a strictly SMALLER object of its class (taken over field by field: every
+        # part keeps the room it had), then a text as long as the original one goes back in
+        small = shortest(tin, vin)
+        rt = retag(tin, vin, small)
+        if rt is not None:
+            cur2 = vset(v, (("f", 1),), rt)
+            lp = [(q, qt) for q, qt in all_paths(t, v) if qt["k"] == "string" and len(q) >= 2 and q[0] == ("f", 1)]
+            ops2 = [{"mode": "set", "path": [["f", 1]], "new": small, "via": "handle", "form": "xobj", "expect": True}]
+            for q, qt in lp[:2]:
+                back = vget(v, q)
+                ops2.append({"mode": "set", "path": [list(x) for x in q], "new": {"s": list(back["s"]), "size": back["size"]}, "via": "view", "form": "py", "expect": True})
+            out.append({"type": t, "value": v, "prep": dict(prep), "ops": ops2})
     return out
 
 
@@ -599,7 +641,7 @@ def c03_update_histories(ctx, n, depth, nops, shards):
     objects): whatever the implementation ACCEPTED changed no byte outside the object and left the size it reports
     equal to the extent reserved at creation.  Returns ([(sig, what, replay)], coverage)."""
     rng = random.Random(ctx.seed + 3030)
-    cases = [gen_case(rng, depth, nops) for _ in range(n)]
+    cases = systematic_cases(rng) + [gen_case(rng, depth, nops) for _ in range(n)]
     for c in cases: c["report_parts"] = True
     sh = (len(cases) + shards - 1) // shards
     results = []
@@ -704,6 +746,10 @@ def part_copy_case(rng, depth):
     c = {"type": H, "value": v, "prep": prep, "p": [list(x) for x in p], "q": [list(x) for x in q], "newq": permute(qt, vget(v, q)),
          "where": rng.choice(["same", "other", "ctx"])}
     part0 = vget(v, p)
+    if pt["k"] == "struct" and rng.random() < 0.3:
+        npv = permute(pt, part0)
+        if json.dumps(npv) != json.dumps(part0) and same_structure(pt, part0, npv):
+            c["first_relayout_copy"] = True; c["newp"] = npv
     lp = [(x, xt) for x, xt in all_paths(pt, part0) if xt["k"] in ("scalar", "string")]
     if lp:
         x, xt = rng.choice(lp)
@@ -736,6 +782,10 @@ def judge_part_copy(c, r):
         out.append(("C09/part-copy/storage-overlaps-the-original/" + w, "copy at [%d,%d) original part at [%d,%d)" % (co, co + cs, so, so + ss)))
     if co < 0 or co + cs > r["cp_capacity"]:
         out.append(("C09/part-copy/copy-outside-its-buffer/" + w, "copy at [%d,%d) capacity %d" % (co, co + cs, r["cp_capacity"])))
+    if c.get("first_relayout_copy"):
+        if r.get("copy_relayout") == "ok" and (not same(r["srcpart_after_copy_relayout"], part0) or not same(r["h_after_copy_relayout"], v0) or r["src_extent_after"] != r["src_extent"]):
+            out.append(("C09/part-copy/assignment-to-the-copy-shows-through-the-handle-of-the-original/" + w, "after the COPY was assigned an object of the same size laid out differently, the handle it was copied from reads %s" % json.dumps(r["srcpart_after_copy_relayout"])[:160]))
+        return out
     if not same(r["cp_0"], part0) or not same(r["cpview_0"], part0):
         out.append(("C09/part-copy/not-equal-to-the-original/" + w, "the copy does not read as the part it was built from"))
         return out
@@ -795,7 +845,10 @@ def c09_part_copies(ctx, n, depth, shards, pid="C09"):
         hist["relayout:" + str(r.get("relayout", r.get("stage")))] += 1
         if r.get("relayout") == "ok": hist["relayout-binary(same size):" + str(r.get("relayout_same_size"))] += 1
         hist["copied-part:" + sub_ty(c["type"], [tuple(x) for x in c["p"]])["k"]] += 1
-        for sig, what in (judge_part_copy(c, r) if pid == "C09" else judge_part_copy_c06(c, r)):
+        js = judge_part_copy(c, r) if pid in ("C09", "C03") else judge_part_copy_c06(c, r)
+        if pid == "C03":
+            js = [(sg.replace("C09/", "C03/"), wt) for sg, wt in js if "handle-of-the-original" in sg]
+        for sig, what in js:
             if sig not in bysig or len(json.dumps(c)) < len(json.dumps(bysig[sig][0])):
                 bysig[sig] = (c, what, r)
     out = [(sig, what, dict(kind="concrete", tie="K-PARTCOPY", case=c, observed={k: v for k, v in r.items() if not k.startswith(("h_", "cp_", "cpview_")) or k in ("cp_1", "cp_write", "h_write")},
